@@ -3,7 +3,7 @@ import json
 import os
 import shutil
 
-from core import Result
+from core import Result, stable, guard
 
 RULE = ("random (thorough: also exhaustive up to length 5) histories over two-plus KeyFile objects for one path: enter / exit "
         "(only when open) / encrypt-decrypt probe / new object / external file changes (absent, valid key, other valid key, "
@@ -284,8 +284,131 @@ def initial_files(rng):
             {"data": bytes(rng.getrandbits(8) for _ in range(rng.choice([0, 16, 31, 33]))).hex()}, "unwritable"]
 
 
+def config_sessions_stream(ctx, res):
+    """the same contract seen from a configuration: ONE configuration with secrets (xor, aes, best) is saved in several sessions while
+    the key file it names changes between the sessions — another valid key, a malformed file, no file — or while the configuration is
+    pointed at another key file (also while a key context of the old one is open).  In every session: a 32-byte file is used verbatim
+    (what was saved opens with exactly those bytes) and not modified; a missing file is created once with 32 bytes and what was saved
+    opens with them; a file of any other size makes the save fail and is left as it is.  Loads are held to the same rule."""
+    import base64
+    import cincoconfig as cc
+    from cincoconfig.encryption import KeyFile, SecureValue
+    tmp = ctx.tmpdir()
+    n = [0]
+    states = [("valid", bytes(range(7, 39))), ("valid", b"K" * 31 + b"\n"), ("malformed", b"12345"), ("malformed", b"x" * 33), ("malformed", b""), ("malformed", b"y" * 64),
+              ("absent", None)]
+    PLAIN = {"name": "bj\u00f6rn", "token": "s3cret", "any": "whatever"}
+
+    def put(path, content):
+        if content is None:
+            if os.path.exists(path):
+                os.remove(path)
+        else:
+            with open(path, "wb") as fp:
+                fp.write(content)
+
+    def opens(path, tree):
+        bad = []
+        for k, plain in PLAIN.items():
+            item = tree.get(k)
+            try:
+                with KeyFile(path) as kf:
+                    got = kf.decrypt(SecureValue(item["method"], base64.b64decode(item["ciphertext"])))
+            except Exception as e:  # noqa
+                got = "raised " + type(e).__name__
+            if got != plain.encode():
+                bad.append(k)
+        return bad
+
+    def session(cfg, path, kind, content, case, how):
+        """one save under the key file state (kind, content) at `path`"""
+        res.case(stable(case), kind="config-sessions:" + kind)
+        try:
+            tree = cfg.to_tree() if how == "to_tree" else json.loads(cfg.dumps(format="json"))
+            raised = None
+        except Exception as e:  # noqa
+            tree, raised = None, type(e).__name__
+        now = open(path, "rb").read() if os.path.exists(path) else None
+        if kind == "malformed":
+            if raised is None:
+                res.violate("C07:config-session:malformed-used", "a save succeeded although the key file the configuration names is malformed", dict(case, size=len(content)))
+            elif now != content:
+                res.violate("C07:config-session:file-modified", "a malformed key file was modified by a failed save", dict(case))
+            return
+        if raised is not None:
+            res.violate("C07:config-session:save-failed", "a save failed although the key file is valid (or absent, to be created): %s" % raised, dict(case))
+            return
+        if kind == "valid" and now != content:
+            res.violate("C07:config-session:file-modified", "a valid key file was modified by a save", dict(case))
+            return
+        if kind == "absent" and (now is None or len(now) != 32):
+            res.violate("C07:config-session:not-created", "the key file the configuration names was absent and a save did not create it with 32 bytes", dict(case, size=None if now is None else len(now)))
+            return
+        bad = opens(path, tree)
+        if bad:
+            res.violate("C07:config-session:other-key-used", "what a session saved does not open with the bytes of the key file as it was in that session", dict(case, fields=bad))
+
+    def build(path):
+        s = cc.Schema()
+        s.name = cc.SecureField(method="xor")
+        s.token = cc.SecureField(method="aes")
+        s.any = cc.SecureField(method="best")
+        cfg = s(key_filename=path)
+        for k, v in PLAIN.items():
+            cfg[k] = v
+        return s, cfg
+
+    # (a) the file changes between the sessions of one configuration
+    for first in states:
+        for second in states:
+            for third in (states[0], states[2], states[6]):
+                for how in ("to_tree", "dumps"):
+                    n[0] += 1
+                    path = os.path.join(tmp, "cs%d.key" % n[0])
+                    s, cfg = build(path)
+                    for k, (kind, content) in enumerate((first, second, third)):
+                        put(path, content)
+                        case = {"stream": "config-sessions", "history": [x[0] + ("" if x[1] is None else ":%d" % len(x[1])) for x in (first, second, third)][:k + 1], "session": k, "how": how}
+                        before = len(res.violations) if hasattr(res, "violations") else None
+                        session(cfg, path, kind, content, case, how)
+                        if kind == "valid" and k < 2 and how == "dumps":
+                            # a load in the same state: what this session saved comes back; then the next state
+                            try:
+                                doc = cfg.dumps(format="json")
+                                fresh = s(key_filename=path)
+                                fresh.loads(doc, format="json")
+                                if {q: fresh[q] for q in PLAIN} != PLAIN:
+                                    res.violate("C07:config-session:other-key-used", "a document saved in a session does not load in the same session", dict(case))
+                                cfg.loads(doc, format="json")
+                            except Exception as e:  # noqa
+                                res.violate("C07:config-session:save-failed", "save / load in one session raised %s" % type(e).__name__, dict(case))
+    # (b) the configuration is pointed at another key file, with and without an open key context of the old one
+    for inside in (False, True):
+        for kind, content in states:
+            for how in ("to_tree", "dumps"):
+                n[0] += 1
+                old = os.path.join(tmp, "cs%d-old.key" % n[0])
+                new = os.path.join(tmp, "cs%d-new.key" % n[0])
+                put(old, bytes(range(32)))
+                s, cfg = build(old)
+                cfg.to_tree()
+                put(new, content)
+                case = {"stream": "config-sessions", "history": "renamed", "inside_open_context_of_the_old_file": inside, "new_file": kind + ("" if content is None else ":%d" % len(content)), "how": how}
+                if inside:
+                    kf = cfg._keyfile
+                    with kf:
+                        cfg._key_filename = new
+                        session(cfg, new, kind, content, case, how)
+                else:
+                    cfg._key_filename = new
+                    session(cfg, new, kind, content, case, how)
+                if open(old, "rb").read() != bytes(range(32)):
+                    res.violate("C07:config-session:file-modified", "the key file a configuration no longer names was modified", dict(case))
+
+
 def run(ctx, n_quick=400, n_thorough=20000):
     res = Result()
+    guard(res, "C07", config_sessions_stream, ctx, res)
     tmp = ctx.tmpdir()
     rng = ctx.rng
     batch, reqs = [], []
